@@ -99,8 +99,12 @@ def build(spec: dict):
         import shutil
         shutil.rmtree(d, ignore_errors=True)
         return k
-    for c, e in zip(spec["coords"], spec["E"]):
-        k.add_minimum(np.array(c, dtype=float), float(e))
+    for i, (c, e) in enumerate(zip(spec["coords"], spec["E"])):
+        if i == 0 and spec.get("int_first"):
+            # a minimum typed by hand as integers (the origin, a lattice point): coordinates are coordinates
+            k.add_minimum(np.array([int(round(x)) for x in c], dtype=np.int64), float(e))
+        else:
+            k.add_minimum(np.array(c, dtype=float), float(e))
     for u, v, e, c in spec["ts"]:
         k.add_ts(np.array(c, dtype=float), float(e), int(u), int(v))
     return k
@@ -593,6 +597,10 @@ def shrink_spec(spec: dict, fails) -> dict:
             n = len(spec["E"])
             if n > 1 and all(n - 1 not in (t[0], t[1]) for t in spec["ts"]):
                 s2 = {"E": spec["E"][:-1], "coords": spec["coords"][:-1], "ts": spec["ts"]}
+                if spec.get("int_first"):
+                    s2["int_first"] = True
+                if spec.get("file_order"):
+                    s2["file_order"] = [i for i in spec["file_order"] if i != n - 1]
                 if ok(s2):
                     spec, changed = s2, True
     return spec
